@@ -165,7 +165,7 @@ func jsonOf(field string, el proto.Message) (string, bool) {
 }
 
 func runC15Representations(c *Ctx) {
-	zones := []string{"UTC", "+05:30", "-11:00", "-03:30", "+14:00"}
+	zones := []string{"UTC", "+05:30", "-11:00", "-03:30", "+14:00", "-00:30", "+00:30", "-00:01", "-00:59", "+00:00", "-12:00"}
 	days := []time.Time{}
 	for i := 0; i < 12; i++ {
 		days = append(days, timeDate(1900+c.rng.Intn(200), 1+c.rng.Intn(12), 1+c.rng.Intn(28), c.rng.Intn(24), c.rng.Intn(60), c.rng.Intn(60), c.rng.Intn(1000000), Pick(c.rng, zones)))
@@ -307,7 +307,7 @@ func runC15Representations(c *Ctx) {
 	// digits, values below a millisecond included): text -> System -> element -> System, and text -> System -> text
 	{
 		fr := []string{"", ".0", ".5", ".12", ".000", ".120", ".999", ".0004", ".0010", ".000400", ".123456", ".000001", ".100000", ".00040"}
-		offs := []string{"", "Z", "+05:30", "-11:00", "+00:00"}
+		offs := []string{"", "Z", "+05:30", "-11:00", "+00:00", "-00:30", "-00:01", "+00:30"}
 		for _, d := range []string{"2020-01-01", "1999-12-31", "2024-02-29", "1600-02-29", "0001-01-01", "9999-12-31", "2300-06-15", "1500-03-01", "1677-09-21", "2262-04-12"} {
 			for _, hms := range []string{"10:00:00", "23:59:59", "00:00:00"} {
 				for _, f := range fr {
